@@ -1136,4 +1136,6 @@ def warping_path_args_to_c(s1, s2, **kwargs):
         return value
     settings_kwargs = {key: get(key) for key in
                        ['window', 'max_dist', 'max_step', 'max_length_diff', 'penalty', 'psi']}
+    if kwargs.get('inner_dist', None) is not None:
+        settings_kwargs['inner_dist'] = innerdistance.to_c(kwargs['inner_dist'])
     return s1, s2, settings_kwargs
